@@ -333,7 +333,9 @@ func (p *pipeline) expected(d *didModel, withUnpublished bool) (doc *refdoc.Doc,
 			if !used[j] && string(so.Type) == a.Type && sameJSON(so.OperationRequest, a.Request) {
 				used[j], found = true, true
 				o.Time, o.Num, o.Published, o.Ref = so.TransactionTime, so.TransactionNumber, true, so.CanonicalReference
-				if so.ProtocolVersion != a.acceptedUnder && p.stampErr == "" {
+				// the stamp selects the version the operation is applied under: it must select the one in force at acceptance
+				// (any time inside that version does; the writer uses its genesis time)
+				if sv, verr := p.pc.Get(so.ProtocolVersion); (verr != nil || sv.Protocol().GenesisTime != a.acceptedUnder) && p.stampErr == "" {
 					p.stampErr = fmt.Sprintf("%s operation %d of DID %s was accepted while the protocol version with genesis %d was in force, but is stored (and therefore applied) under protocol version %d", a.Type, i, d.suffix, a.acceptedUnder, so.ProtocolVersion)
 				}
 				break
